@@ -150,7 +150,7 @@ func (v *VerifSession) Pop() bool {
 	}
 }
 
-func (v *VerifSession) Timeout(e int)               { v.s.Timeout(v.s, internal.Event(e)) }
+func (v *VerifSession) Timeout(e int)                { v.s.Timeout(v.s, internal.Event(e)) }
 func (v *VerifSession) Disconnected()                { v.s.Disconnected(v.s) }
 func (v *VerifSession) Stop()                        { v.s.onAdmin(stopReq{}) }
 func (v *VerifSession) SendAppMessages()             { v.s.SendAppMessages(v.s) }
